@@ -55,6 +55,18 @@ func main() {
 			*tier = t
 		}
 		os.Exit(runCheck(*prop, *tier, *verbose))
+	case "anchors":
+		// records the fingerprints of the unexported declarations of the current tree
+		// (run on the tree the rules were confirmed on; checks only read the file)
+		p, err := Load("amd64")
+		if err == nil {
+			err = writeAnchors(p)
+		}
+		if err != nil {
+			fmt.Fprintln(os.Stderr, err)
+			os.Exit(1)
+		}
+		fmt.Println("wrote fpsa/anchors.json")
 	default:
 		fmt.Fprintln(os.Stderr, "unknown command", os.Args[1])
 		os.Exit(2)
